@@ -52,6 +52,30 @@ CLAIMED.update({
          "Apalache/Z3; TLC; the byte count of a call is the length of the slice passed in", "5 C17"),
 })
 
+CLAIMED.update({
+ "C18": (MC, "TLC: Trace_Chunk (reference receiver, ALL drop subsets) over every packet both real sessions returned, in returned order, with the serializer-tap intent per packet; uptime scheduled across 2^24 and 2^32 ms through the clock hook; message-level WIRE checks in Trace_Server/Trace_Client",
+         "The bytes a session hands out are parsed by the TLA+ receiver written from the protocol document; each packet must decode, under every subset of dropped droppable packets, to exactly the message the session asked its serializer to encode for that packet, which pinpoints order and loss defects; chunk-size changes are learnt from the wire only.",
+         "serializer tap and clock hooks; TLC; harness logger", "5 C18"),
+ "C05": (MC, "TLC: MC_Handshake (two peers, all fragmentations/interleavings, safety + liveness under weak fairness, P=3) + Trace_Handshake replays every process call of real exchanges through HsStep with P=1536 (handed-back bytes compared by value)",
+         "Design level: no early completion, exactly 1+2P bytes emitted, byte conservation, only trailing bytes reach the application, both sides eventually complete. Code level: real x real and real x legacy peer under whole/boundary/random/1-byte fragmentation with trailing data.",
+         "TLC; harness logger", "5 C05"),
+ "C11": (EX, "Trace_Handshake digest rules in TLA+ (offset functions, role->key table, signature vs echo) evaluated by TLC over facts about an uninterpreted HMAC-SHA256 supplied by an independent harness implementation; all 728 received offsets x 2 schemes x 2 roles enumerated, own offsets through the deterministic fill hook",
+         "Exploration level, exhaustive over the received-offset space; own offsets are sampled (count of distinct positions seen is in the evidence).",
+         "harness HMAC-SHA256 (FIPS 180-4/RFC 2104, self-checked against RFC 4231); fill hook; TLC", "5 C11"),
+ "C20": (MC, "Apalache: clock laws for ALL (a,d) in u32 x u32 on a transcription of time.rs (ClockFlat); TLC: limb arithmetic refinement (MC_Clock); Trace_Clock recomputes every operator result of the real RtmpTimestamp on boundary and random pairs",
+         "Symbolic proof over the full 2^64 input space for the transcription; the transcription is bound to the code by trace validation on the boundary product (distances 2^31-2 .. 2^31+2, wraps) through all operators incl. u32 on either side.",
+         "ClockFlat transcription; Apalache/Z3; TLC", "5 C20"),
+ "C03": (EX, "Trace_Resource: call/return alphabet without panic/death/timeout actions + allocation/time envelope as invariants, over a state x malformed-class product executed in supervised child processes",
+         "Exploration: the structured part enumerates (session state) x (hostile message class) x (fragmentation); byte mutation of valid streams is seeded sampling. The decisive observations are measurements.",
+         "child-process supervisor, counting allocator, overflow-checked build; TLC", "5 C03"),
+ "C14": (EX, "Trace_Resource over pumped AMF0 nesting skeletons and lying headers decoded (and dropped) on a 2 MiB stack in a supervised child",
+         "Exploration: all nesting words up to length 3 pumped to depth 10^6 (length/5 for 16 MiB), lying counts up to 2^32-1, flat inputs; envelope peak <= 256*len + 1 MiB.",
+         "child-process supervisor, counting allocator; TLC", "5 C14"),
+ "C19": (EX, "Trace_Resource with the Honoured(class) table in TLA+ (what each configuration class must do) over the full class product at every entry point, in supervised child processes",
+         "Exhaustive over the class product; refusal classes must return an error, accepted classes must return ok, still carry messages, and stay inside the time/memory envelope (a hang or runaway allocation is a dead child = no action in the specification).",
+         "child-process supervisor; 'still works' probe evaluated in the harness; TLC", "5 C19"),
+})
+
 NOT_YET = {}
 
 def main():
